@@ -9,19 +9,30 @@ EXTENDS Naturals, Sequences, FiniteSets, SequencesExt, TLC, Json, IOUtils, Rando
 Tokens == <<" ", "a", "ab", "b*", "a?", "AND", "OR", "NOT", "ANDNOT", "ANDMAYBE", "REQUIRE", "TO",
             "(", ")", "[", "]", "{", "}", "<dquote>", "'", ":", "^", "~", "*", "?", "title:", "num:",
             "when:", "flag:", "ng:", "price:", "nosuch:", "*:", "2", "-3", "1.5", "-", "+", "<", ">=",
-            "<backslash>", "/", ".", "<eacute>", "<emoji>", "<tab>", "2010-01-02", "yes", "now", "&", "|", "!">>
+            "<backslash>", "/", ".", "<eacute>", "<emoji>", "<tab>", "2010-01-02", "yes", "now", "&", "|", "!",
+            "^2", "~2", "~">>
+
+\* grammar-aware inputs: every sequence of at most N_EDGE tokens placed at the edge of a group, a field
+\* group, a range, a phrase, an operator's operand position, or after a typed field prefix
+Contexts == << <<"a (", " b)">>, <<"a (b ", ")">>, <<"(", ")">>, <<"a OR (", " b)">>, <<"title:(", " a) b">>,
+               <<"a (", ")">>, <<"[", " TO b]">>, <<"[a TO ", "]">>, <<"<dquote>", "<dquote>">>,
+               <<"<dquote>a ", "<dquote>~2">>, <<"a AND ", " AND b">>, <<"NOT ", "">>, <<"a ", "">>, <<"", " a">>,
+               <<"num:", "">>, <<"when:[", " TO]">>, <<"flag:", " a">>, <<"a ANDNOT ", "">>, <<"title:", "^2">> >>
 
 NExh == atoi(IOEnv.N_EXH)
 NRand == atoi(IOEnv.N_RAND)
 RandLen == atoi(IOEnv.RAND_LEN)
+NEdge == atoi(IOEnv.N_EDGE)
 
 RECURSIVE Concat(_)
 Concat(s) == IF s = <<>> THEN "" ELSE Tokens[Head(s)] \o Concat(Tail(s))
 
 Exhaustive == UNION {[1 .. k -> 1 .. Len(Tokens)] : k \in 0 .. NExh}
+Edge == {Contexts[c][1] \o Concat(s) \o Contexts[c][2] :
+           c \in DOMAIN Contexts, s \in UNION {[1 .. k -> 1 .. Len(Tokens)] : k \in 0 .. NEdge}}
 Random == IF NRand = 0 THEN {} ELSE RandomSubset(NRand, [1 .. RandLen -> 1 .. Len(Tokens)])
 
 ASSUME JsonSerialize(IOEnv.OUT_FILE, [tokens |-> Tokens,
-                                      exhaustive |-> SetToSeq({Concat(s) : s \in Exhaustive}),
+                                      exhaustive |-> SetToSeq({Concat(s) : s \in Exhaustive} \cup Edge),
                                       random |-> SetToSeq({Concat(s) : s \in Random})])
 =============================================================================
